@@ -40,6 +40,17 @@ def deliver(sp, doc, binding=None, outstanding=None, **kw):
     return ('accept', resp)
 
 
+def deliver_attr(sp, doc):
+    """the other response entry point of an SP: an answer to an AttributeQuery, SOAP-enveloped (unsigned documents only: the SOAP decoder re-serialises the body)"""
+    try:
+        resp = sp.parse_attribute_query_response(build.soap_envelope(doc), world.SOAP)
+    except Exception as e:
+        return ('reject', type(e).__name__, str(e)[:200])
+    if resp is None:
+        return ('reject', 'None', '')
+    return ('accept', resp)
+
+
 def identity_of(resp):
     """what the application reads"""
     nid = resp.name_id
